@@ -328,7 +328,7 @@ type spec struct {
 	typ      reflect.Type
 	pass     string // "value", "ptr", "either": how the value goes into Marshal
 	dest     int
-	fresh    bool     // destination slice starts with length 0 (spare capacity allowed)
+	dclass   string   // state of a destSlicePtr receiver before decoding (destClasses); "" = drawn per evaluation
 	garbOnly bool     // garbage destination only
 	oddDest  bool     // "typ" is ignored: a list of unsupported destinations
 	siblings []string // tclasses of the same codec with the same field names and other shapes
@@ -373,15 +373,24 @@ var codecs = map[string]*codecCfg{
 }
 var codecOrder = []string{"form", "plain", "json", "xml", "protobuf", "thrift", "bypass"}
 
-// bypass drives socket.Message.MarshalBody / UnmarshalBody with a fixed body codec id.
+// bypass drives socket.Message.MarshalBody / UnmarshalBody; the body codec id (irrelevant for
+// byte-slice bodies, which is the point) is set per evaluation from bypassIDs.
 type bypass struct{ id byte }
 
-func (b bypass) ID() byte     { return b.id }
-func (b bypass) Name() string { return "bypass" }
-func (b bypass) Marshal(v interface{}) ([]byte, error) {
+var bypassIDs = []struct {
+	name string
+	id   byte
+}{{"json", codec.ID_JSON}, {"protobuf", codec.ID_PROTOBUF}, {"nil", codec.NilCodecID}, {"unregistered", 0xEE}}
+
+// destClasses are the states of a *[]byte receiver before decoding (relative to the body length).
+var destClasses = []string{"fresh", "longer", "equal", "shorter-cap", "shorter-nocap", "nil"}
+
+func (b *bypass) ID() byte     { return b.id }
+func (b *bypass) Name() string { return "bypass" }
+func (b *bypass) Marshal(v interface{}) ([]byte, error) {
 	return socket.NewMessage(socket.WithBodyCodec(b.id), socket.WithBody(v)).MarshalBody()
 }
-func (b bypass) Unmarshal(data []byte, v interface{}) error {
+func (b *bypass) Unmarshal(data []byte, v interface{}) error {
 	return socket.NewMessage(socket.WithBodyCodec(b.id), socket.WithBody(v)).UnmarshalBody(data)
 }
 
@@ -495,15 +504,12 @@ func buildSpecs() []*spec {
 	add("thrift", "empty-struct", struct{}{})
 	add("thrift", "odd-dest", nil, odd)
 
-	// body bypass: []byte / *[]byte bodies under a registered, the nil and an unregistered codec id
-	for _, b := range []struct {
-		name string
-		id   byte
-	}{{"json", codec.ID_JSON}, {"protobuf", codec.ID_PROTOBUF}, {"nil", codec.NilCodecID}, {"unregistered", 0xEE}} {
-		id := b.id
-		with := func(s *spec) { s.cd = bypass{id}; s.dest = destSlicePtr; s.fresh = true }
-		add("bypass", "bytes-codec-"+b.name, []byte{}, with, byValue)
-		add("bypass", "ptr-bytes-codec-"+b.name, []byte{}, with, byPtr)
+	// receivers of the byte-slice fast paths in every state a caller can hand them over in:
+	// socket.Message body bypass ([]byte / *[]byte sent, *[]byte received) and plain codec *[]byte
+	for _, dc := range destClasses {
+		dc := dc
+		add("bypass", "dest-"+dc, []byte{}, func(s *spec) { s.cd = &bypass{}; s.dest = destSlicePtr; s.dclass = dc })
+		add("plain", "bytes-ptr-dest-"+dc, []byte{}, func(s *spec) { s.dest = destSlicePtr; s.dclass = dc })
 	}
 
 	canary := reflect.TypeOf([4]uint64{})
